@@ -48,8 +48,9 @@ VARIABLES writable,  \* could the server's pool write before any tool call?
           busy,      \* per connection: checked out of the pool
           call,      \* the tool call in progress, or [pc |-> "none"]
           ncalls, nwrites,
+          okWrites,  \* server writes that succeeded
           lastWrite  \* outcome of the last server write: "ok" | "failed" | "none"
-vars == <<writable, db, files, qo, busy, call, ncalls, nwrites, lastWrite>>
+vars == <<writable, db, files, qo, busy, call, ncalls, nwrites, okWrites, lastWrite>>
 
 None == [pc |-> "none"]
 
@@ -58,7 +59,7 @@ Init == /\ writable \in BOOLEAN
         /\ qo = [c \in Conns |-> FALSE]
         /\ busy = [c \in Conns |-> FALSE]
         /\ call = None
-        /\ ncalls = 0 /\ nwrites = 0 /\ lastWrite = "none"
+        /\ ncalls = 0 /\ nwrites = 0 /\ okWrites = 0 /\ lastWrite = "none"
 
 (* ---- the tool call, step by step --------------------------------------- *)
 Begin(cl, expired) ==
@@ -66,11 +67,11 @@ Begin(cl, expired) ==
     /\ call' = [pc |-> "classify", class |-> cl, conn |-> 0, expired |-> expired, when |-> IF expired THEN "before" ELSE "none",
                 overlap |-> FALSE, res |-> "none", out |-> "none"]
     /\ ncalls' = ncalls + 1
-    /\ UNCHANGED <<writable, db, files, qo, busy, nwrites, lastWrite>>
+    /\ UNCHANGED <<writable, db, files, qo, busy, nwrites, okWrites, lastWrite>>
 
 Expire == /\ call.pc \in {"classify", "acquire", "guard", "run"} /\ ~call.expired
           /\ call' = [call EXCEPT !.expired = TRUE, !.when = IF call.pc = "run" THEN "during" ELSE "early"]
-          /\ UNCHANGED <<writable, db, files, qo, busy, ncalls, nwrites, lastWrite>>
+          /\ UNCHANGED <<writable, db, files, qo, busy, ncalls, nwrites, okWrites, lastWrite>>
 
 Finish(res, out) == call' = [call EXCEPT !.pc = "done", !.res = res, !.out = out]
 
@@ -78,7 +79,7 @@ Finish(res, out) == call' = [call EXCEPT !.pc = "done", !.res = res, !.out = out
 Classify == /\ call.pc = "classify"
             /\ IF LooksReadOnly(call.class) THEN call' = [call EXCEPT !.pc = "acquire"]
                                             ELSE Finish("refused", "none")
-            /\ UNCHANGED <<writable, db, files, qo, busy, ncalls, nwrites, lastWrite>>
+            /\ UNCHANGED <<writable, db, files, qo, busy, ncalls, nwrites, okWrites, lastWrite>>
 
 Acquire == /\ call.pc = "acquire"
            /\ \/ /\ call.expired /\ Finish("timeout", "none") /\ UNCHANGED busy
@@ -86,13 +87,13 @@ Acquire == /\ call.pc = "acquire"
                  /\ \E c \in Conns : /\ ~busy[c]
                                      /\ busy' = [busy EXCEPT ![c] = TRUE]
                                      /\ call' = [call EXCEPT !.pc = "guard", !.conn = c]
-           /\ UNCHANGED <<writable, db, files, qo, ncalls, nwrites, lastWrite>>
+           /\ UNCHANGED <<writable, db, files, qo, ncalls, nwrites, okWrites, lastWrite>>
 
 (* L2 on; if the deadline fired first the call gives up and releases the connection untouched *)
 Guard == /\ call.pc = "guard"
          /\ \/ /\ call.expired /\ call' = [call EXCEPT !.pc = "release", !.res = "timeout"] /\ UNCHANGED qo
             \/ /\ ~call.expired /\ qo' = [qo EXCEPT ![call.conn] = TRUE] /\ call' = [call EXCEPT !.pc = "run"]
-         /\ UNCHANGED <<writable, db, files, busy, ncalls, nwrites, lastWrite>>
+         /\ UNCHANGED <<writable, db, files, busy, ncalls, nwrites, okWrites, lastWrite>>
 
 (* the engine: a write or a new file happens iff the text wants it, the connection is writable and
    the switch is off — with L2 in place the first disjunct is dead, which is what DBUnchanged checks *)
@@ -108,22 +109,22 @@ Run == /\ call.pc = "run"
           \/ /\ i = "read" /\ ~call.expired /\ Size(call.class) # "never" /\ UNCHANGED <<db, files>>
              /\ call' = [call EXCEPT !.pc = "reset", !.res = "rows",
                                      !.out = IF Size(call.class) = "small" THEN "small" ELSE "capped"]
-       /\ UNCHANGED <<writable, qo, busy, ncalls, nwrites, lastWrite>>
+       /\ UNCHANGED <<writable, qo, busy, ncalls, nwrites, okWrites, lastWrite>>
 
 (* an endless query only ends through the deadline (the caller's or the tool's own) *)
 ToolTimeout == /\ call.pc = "run" /\ Size(call.class) = "never" /\ ~call.expired
                /\ call' = [call EXCEPT !.expired = TRUE, !.when = "during"]
-               /\ UNCHANGED <<writable, db, files, qo, busy, ncalls, nwrites, lastWrite>>
+               /\ UNCHANGED <<writable, db, files, qo, busy, ncalls, nwrites, okWrites, lastWrite>>
 
 Reset == /\ call.pc = "reset"
          /\ qo' = [qo EXCEPT ![call.conn] = IF ResetCtx = "query" /\ call.expired THEN @ ELSE FALSE]
          /\ call' = [call EXCEPT !.pc = "release"]
-         /\ UNCHANGED <<writable, db, files, busy, ncalls, nwrites, lastWrite>>
+         /\ UNCHANGED <<writable, db, files, busy, ncalls, nwrites, okWrites, lastWrite>>
 
 Release == /\ call.pc = "release"
            /\ busy' = [busy EXCEPT ![call.conn] = FALSE]
            /\ call' = [call EXCEPT !.pc = "done"]
-           /\ UNCHANGED <<writable, db, files, qo, ncalls, nwrites, lastWrite>>
+           /\ UNCHANGED <<writable, db, files, qo, ncalls, nwrites, okWrites, lastWrite>>
 
 Case == [class |-> call.class, when |-> call.when, conn |-> call.conn, overlap |-> call.overlap,
          res |-> call.res, out |-> call.out, writable |-> writable]
@@ -131,13 +132,13 @@ Case == [class |-> call.class, when |-> call.when, conn |-> call.conn, overlap |
 Return == /\ call.pc = "done"
           /\ PrintT(<<"CASE", ToJson(Case)>>)
           /\ call' = None
-          /\ UNCHANGED <<writable, db, files, qo, busy, ncalls, nwrites, lastWrite>>
+          /\ UNCHANGED <<writable, db, files, qo, busy, ncalls, nwrites, okWrites, lastWrite>>
 
 (* ---- the server's own use of the pool, at any time ---------------------- *)
 ServerWrite(c) == /\ ~busy[c] /\ nwrites < MaxWrites
                   /\ nwrites' = nwrites + 1
-                  /\ IF writable /\ ~qo[c] THEN db' = db + 1 /\ lastWrite' = "ok"
-                                           ELSE UNCHANGED db /\ lastWrite' = "failed"
+                  /\ IF writable /\ ~qo[c] THEN db' = db + 1 /\ okWrites' = okWrites + 1 /\ lastWrite' = "ok"
+                                           ELSE UNCHANGED <<db, okWrites>> /\ lastWrite' = "failed"
                   /\ call' = (IF call.pc \in {"none", "done"} THEN call ELSE [call EXCEPT !.overlap = TRUE])
                   /\ UNCHANGED <<writable, files, qo, busy, ncalls>>
 
@@ -147,8 +148,7 @@ Next == \/ \E cl \in Classes, e \in BOOLEAN : Begin(cl, e)
 Spec == Init /\ [][Next]_vars
 
 (* ---- what the statement demands ---------------------------------------- *)
-ServerWrites == IF writable THEN nwrites ELSE 0
-DBUnchanged == db <= nwrites /\ (lastWrite # "failed" => db = ServerWrites)   \* only the server's writes changed it
+DBUnchanged == db = okWrites                                      \* only the server's own successful writes changed it
 ToolNeverWrites == [][(db' # db) => (nwrites' = nwrites + 1)]_vars
 NoNewFile == files = 0
 CapsRespected == call.pc = "done" /\ call.res = "rows" => call.out \in {"small", "capped"}
